@@ -401,6 +401,70 @@ def o8(h, st):
     h.done()
 
 
+# O9 histories on ONE molecule object ------------------------------------------------------------------------------------------------
+
+def _ham_key(op):
+    """comparable form of a fermionic operator (terms with coefficients rounded to 1e-9)"""
+    return sorted((repr(t), round(complex(c).real, 9), round(complex(c).imag, 9)) for t, c in op.terms.items() if abs(c) > 1e-10)
+
+
+@contract("C04", "O9.molecule_histories", level="B", structures=lambda tier: [{"uhf": u, "charge": q, "spin": sp} for u, q, sp in ((False, 0, 0), (False, 1, 1), (True, 1, 1))],
+          native_samples=lambda st, rnd, tier: [{"seed": rnd.randint(0, 10 ** 6)}],
+          targets=[(ML, "SecondQuantizedMolecule.freeze_mos"), (ML, "SecondQuantizedMolecule.fermionic_hamiltonian"), (ML, "SecondQuantizedMolecule.mo_coeff"),
+                   (ML, "SecondQuantizedMolecule._get_fermionic_hamiltonian"), (ML, "SecondQuantizedMolecule.get_integrals")])
+def o9(h, st):
+    """bounded: ONE molecule object along a history - read the fermionic Hamiltonian, freeze orbitals in place, read it, freeze a different set, read it, un-freeze, read it, replace
+    the MO coefficients by rotated ones, read it, freeze again, read it: after EVERY step the Hamiltonian, the numbers of active electrons / orbitals and the frozen / active orbital
+    lists equal those of a FRESH molecule constructed directly with the current frozen orbitals (and given the same MO coefficients); out-of-place freeze_mos leaves the object
+    untouched; the Hamiltonian read first is not changed by the later steps"""
+    import numpy as np
+    from tangelo import SecondQuantizedMolecule
+    rs = np.random.default_rng(int(h.integer("seed")))
+    geo = [("H", (0, 0, 0)), ("H", (0, 0, 1.0)), ("H", (0, 0, 2.1)), ("H", (0, 0, 3.3))]
+    uhf = st["uhf"]
+    kw = dict(q=st["charge"], spin=st["spin"], basis="sto-3g", uhf=uhf)
+    mol = SecondQuantizedMolecule(geo, **kw)
+    coeff0 = np.array(mol.mo_coeff, copy=True)
+
+    def fresh(frozen, coeff):
+        m = SecondQuantizedMolecule(geo, frozen_orbitals=frozen, **kw)
+        m.mo_coeff = np.array(coeff, copy=True)
+        return m
+
+    def same(tag, frozen, coeff):
+        f = fresh(frozen, coeff)
+        h.check(tag + "Hamiltonian == that of a fresh molecule with the current frozen orbitals and MO coefficients", _ham_key(h.getattr(mol, "fermionic_hamiltonian")) == _ham_key(f.fermionic_hamiltonian))
+        h.check(tag + "active electrons / orbitals and orbital lists as in the fresh molecule",
+                (mol.n_active_electrons, mol.n_active_mos, mol.frozen_mos, mol.active_mos, mol.active_occupied, mol.frozen_occupied, mol.active_virtual, mol.frozen_virtual) ==
+                (f.n_active_electrons, f.n_active_mos, f.frozen_mos, f.active_mos, f.active_occupied, f.frozen_occupied, f.active_virtual, f.frozen_virtual))
+    first = h.getattr(mol, "fermionic_hamiltonian")
+    first_key = _ham_key(first)
+    fz1 = [[0], [0]] if uhf else [0]
+    fz2 = [[0, 3], [3]] if uhf else [0, 3]
+    same("initially: ", None, coeff0)
+    h.call(ML, "SecondQuantizedMolecule.freeze_mos", mol, fz1)
+    same("after freeze_mos(first set): ", fz1, coeff0)
+    other = h.call(ML, "SecondQuantizedMolecule.freeze_mos", mol, fz2, False)
+    same("after an out-of-place freeze_mos (object untouched): ", fz1, coeff0)
+    h.check("the out-of-place result carries the second set", other is not mol and other.frozen_mos == fresh(fz2, coeff0).frozen_mos)
+    h.call(ML, "SecondQuantizedMolecule.freeze_mos", mol, fz2)
+    same("after freeze_mos(second set): ", fz2, coeff0)
+    h.call(ML, "SecondQuantizedMolecule.freeze_mos", mol, None)
+    same("after un-freezing: ", None, coeff0)
+    # rotate two orbitals of the same occupation class (occupied with occupied would need >= 2 of them: mix the two highest virtuals / lowest occupied as available)
+    th = float(rs.uniform(0.2, 1.2))
+    R = np.eye(4)
+    R[2, 2] = R[3, 3] = np.cos(th)
+    R[2, 3], R[3, 2] = -np.sin(th), np.sin(th)
+    new = np.array([c @ R for c in coeff0]) if uhf else coeff0 @ R
+    mol.mo_coeff = np.array(new, copy=True)
+    same("after replacing the MO coefficients: ", None, new)
+    h.call(ML, "SecondQuantizedMolecule.freeze_mos", mol, fz1)
+    same("after freezing again with the new coefficients: ", fz1, new)
+    h.check("the Hamiltonian object read first was not modified by the later steps", _ham_key(first) == first_key)
+    h.done()
+
+
 PROPERTY = {
     "level": "exploration",
     "explanation": "The headline (mean-field expectation value, full-CI eigenvalue, rotation invariance) is a floating-point statement about PySCF integrals and eigenvalues: no contract "
